@@ -173,6 +173,8 @@ uint32 Server::Private::resolve(Resolver *resolver)
 
 Server::Timer *Server::Private::time(int64 interval, Timer::ICallback &callback)
 {
+  if (interval < 1)
+    interval = 1; // a timer that is always due would never let run() reach the sockets or notice an interrupt
   TimerImpl &timer = _timers.append<Timer::ICallback&, int64, int64>(callback, Time::ticks() + interval, interval);
   _queuedTimers.insert(timer.executionTime, &timer);
   return (Server::Timer *)&timer;
